@@ -290,6 +290,7 @@ type Trace struct {
 	Timeout                string       `json:"timeout,omitempty"`
 	IdleTicks              int          `json:"idle_ticks"`
 	Quiescent              []QPoint     `json:"quiescent,omitempty"`
+	BlockedQuiescent       int          `json:"blocked_quiescent,omitempty"` // quiescent points taken while the scheduler sat inside one iteration
 	ParkedAtReturn         int          `json:"parked_at_return,omitempty"`
 	Output                 string       `json:"output,omitempty"`
 	OutputWrites           int          `json:"output_writes,omitempty"`
@@ -1073,6 +1074,8 @@ func Execute(spec *Spec) *Trace {
 		var spinSig [4]uint64
 		var spinStart uint64
 		spinForce := false
+		var idleTick, idleLoops uint64
+		idleSince := time.Now()
 		heldAfterCancel := false
 		cancelSeen := false
 	CONTROL:
@@ -1093,8 +1096,17 @@ func Execute(spec *Spec) *Trace {
 				_, p, ip, sk, dn = unpack(atomic.LoadUint64(&h.lsnap))
 				stable = 1
 			}
-			if (s != 0 && tick != lastTick) || forceQ {
-				if !forceQ {
+			// a scheduler that waits for a completion instead of polling reports "nothing to do" once and then stays inside that
+			// iteration: no further tick, no further loop iteration. When that has lasted for a while and every launched task is
+			// parked, the controller goes on (the point is not used for the work-conservation rule: it was not seen twice).
+			blockQ := false
+			if ln := atomic.LoadUint64(&h.loops); tick != idleTick || ln != idleLoops {
+				idleTick, idleLoops, idleSince = tick, ln, time.Now()
+			} else if s != 0 && tick == lastTick && stable == 0 && !forceQ && time.Since(idleSince) > 30*time.Millisecond {
+				blockQ = true
+			}
+			if (s != 0 && tick != lastTick) || forceQ || blockQ {
+				if !forceQ && !blockQ {
 					tr.IdleTicks++
 					if cancelSeen {
 						tr.TicksAfterCancel++
@@ -1155,8 +1167,11 @@ func Execute(spec *Spec) *Trace {
 					}
 					stable = 1
 				}
-				if stable >= 1 && nParked > 0 && nParked >= want && dn >= fin {
+				if (stable >= 1 || blockQ) && nParked > 0 && nParked >= want && dn >= fin {
 					// quiescent point
+					if blockQ {
+						tr.BlockedQuiescent++
+					}
 					r.mu.Lock()
 					sort.Slice(r.parked, func(a, b int) bool {
 						if r.parked[a].task != r.parked[b].task {
@@ -1164,7 +1179,7 @@ func Execute(spec *Spec) *Trace {
 						}
 						return r.parked[a].attempt < r.parked[b].attempt
 					})
-					q := QPoint{Seq: r.seq, InProg: ip, Done: dn, Pending: p, Skip: sk, Fresh: dn == fin}
+					q := QPoint{Seq: r.seq, InProg: ip, Done: dn, Pending: p, Skip: sk, Fresh: dn == fin && !blockQ}
 					for _, pt := range r.parked {
 						q.Parked = append(q.Parked, pt.task)
 					}
